@@ -322,7 +322,9 @@ def _unique_value_for(k, rng_tag):
     m = (k * 7 + rng_tag) % 8
     if m == 5 and rng_tag >= 50:
         # (mindsdb dialect only) a string with a quote in it, the empty string, an integer beyond 64 bits
-        j = (k + rng_tag) % 3
+        j = (k + rng_tag) % 4
+        if j == 3:
+            return 'C:\\tmp\\f%d 50\\%%' % k, "'C:\\tmp\\f%d 50\\%%'" % k
         if j == 0:
             return "it's %d" % k, "'it''s %d'" % k
         if j == 1:
@@ -418,7 +420,7 @@ def gen_scenario(seed):
         top = max((st['cat'] for st in stmts), key=lambda c: rank[c])
         for st in stmts:
             st['cat'] = top
-        sessions.append({'stmts': stmts, 'script': gen_script(rng, nst), 'cache_templates': rng.random() < 0.3})
+        sessions.append({'stmts': stmts, 'script': gen_script(rng, nst), 'cache_templates': rng.random() < 0.3, 'logs': rng.random() < 0.35})
     threads = rng.random() < 0.15
     spec = {'cmd': 'c12', 'property': PROP, 'seed': seed, 'hashseed': seed % 16, 'sessions': sessions, 'threads': threads,
             'order_seed': rng.randrange(1 << 30), 'share_catalog': rng.random() < 0.5}
@@ -507,6 +509,10 @@ class Session:
                 self.obs['parse_rejected'] += 1
                 self.log.append('P parse-err %s' % type(e).__name__)
                 return True
+            if self.sdef.get('logs'):
+                # a caller that logs what it is about to prepare: printing a tree must not change anything
+                self.obs['tree_logged'] += 1
+                str(ast), ast.to_tree(), repr(ast)
             if self.planner is None or (op[1] == 0 and k == 'P'):
                 self.planner = QueryPlanner(**O.plan_kwargs(self.catalogs(self.cur['cat'])))
             try:
@@ -604,6 +610,8 @@ class Session:
             if self.state != 'prepared':
                 return True
             self.steps, self.exec_err = [], None
+            if self.sdef.get('logs') and self.planner is not None and self.planner.query is not None:
+                str(self.planner.query), self.planner.query.to_tree()
             self.vals_obj = [v for v, _ in self.values()]
             try:
                 self.gen = iter(self.planner.execute_steps(self.vals_obj))
